@@ -380,11 +380,14 @@ void ThreadPool::threadProc(ThreadToken thread_token)
         std::unique_lock<std::mutex> lk(d_->lock);
 
         auto t = d_->threads_cabinet.free(thread_token);
-        TBOX_ASSERT(t != nullptr);
-        d_->wp_loop->runInLoop(
-            [t]{ t->join(); delete t; },
-            "ThreadPool::threadProc, join and delete it"
-        );
+        //! t == nullptr: cleanup() has already taken every thread out of the cabinet
+        //! and is going to join and delete this one itself
+        if (t != nullptr) {
+            d_->wp_loop->runInLoop(
+                [t]{ t->join(); delete t; },
+                "ThreadPool::threadProc, join and delete it"
+            );
+        }
         //! 这个操作放到最后来做是为了减少主线程join()的等待时长
     }
 }
